@@ -116,7 +116,7 @@ CanFollow(fr, new) ==
      /\ ~(fr.ck = "arg" /\ fr.kind = "[" /\ HasTopBracketClose(new))                              \* G3
      /\ ~(IsTextNode(prev) /\ IsTextNode(new) /\ its # <<>>)                                      \* G8
      /\ ~(prev.k = "text" /\ prev.kind = "Com" /\ ~(IsTextNode(new) /\ nf = "\n"))                \* G4
-     /\ ~(prev.k = "math" /\ prev.kind \in {"$", "$$"} /\ nf = "$")                               \* G5
+     /\ ~(prev.k = "math" /\ prev.kind = "$" /\ nf = "$")                                         \* G5: "$a$$..." is ambiguous; "$$a$$$b$" is not (longest match)
      /\ ~(IsTextNode(prev) /\ LoneBackslashEnd(prev.s))                                          \* a text run never ends in a lone backslash
 
 TopG == gstack[Len(gstack)]
